@@ -115,6 +115,10 @@ class OpaqueLog:
             r = self.returns.get(method)
         if callable(r):
             return r(E, obj, method, args, kwargs)
+        if r is None and key not in self.returns and method not in self.returns:
+            # no contract says what this operation returns: the result may be ignored or passed on, but nothing may be
+            # decided from it (its truth value, its identity with None, awaiting it -> undecided, never a guess)
+            return SOpaque('unspecified-result', '%s.%s()' % (obj.ident, method))
         return r
 
     def of(self, obj=None, method=None):
